@@ -618,8 +618,22 @@ pub trait AutoMerge: RemoteSyncHandler {
             return Ok(AutoMergeStatus::RewindLocal(remote));
         }
 
-        // Combine the event records
-        local.extend(remote);
+        // Combine the event records; a record that is in both patches
+        // (same commit hash and time) is the same event which has
+        // already been synced and must only be included once
+        let mut shared = std::collections::BTreeMap::new();
+        for record in &local {
+            *shared
+                .entry((record.commit().0, record.time().clone()))
+                .or_insert(0usize) += 1;
+        }
+        for record in remote {
+            match shared.get_mut(&(record.commit().0, record.time().clone()))
+            {
+                Some(count) if *count > 0 => *count -= 1,
+                _ => local.push(record),
+            }
+        }
 
         // Sort by time so the more recent changes will win (LWW)
         local.sort_by(|a, b| a.time().cmp(b.time()));
